@@ -1,3 +1,4 @@
+import Mercure.Lemmas.BoltStore
 import Mercure.Lemmas.Event
 import Mercure.Generated.Facts
 /-
@@ -33,8 +34,58 @@ example : parseSSE ({ data := "a\r\nid: x\r\rdata: y\n".toList, id := "urn:1".to
     = [{ id := "urn:1".toList, type := "t:u".toList, data := "a\nid: x\n\ndata: y\n".toList, retry := some 30 }] := by
   decide +kernel
 
+/-! ### the persistent transport: stored as JSON, replayed from JSON -/
+
+/-- What the Bolt transport stores for an update (`json.Marshal(*update)`) decodes
+    (`json.Unmarshal` in `dispatchHistory`) to exactly that update — every id, topic, type, payload
+    (any scalar sequence: quotes, backslashes, control characters, `<>&`, U+2028/9, astral characters,
+    text that looks like an escape) and every 64-bit retry. So a replayed event is the published one. -/
+theorem stored_value_roundtrip (debug : Bool) (u : Update) (h : u.retry < 2 ^ 64) :
+    Json.parseUpdate (Json.update debug u) = some (debug, u) :=
+  Json.parseUpdate_update debug u h
+
+/-- Two different updates are never stored as the same bytes. -/
+theorem stored_value_injective (d d' : Bool) (u u' : Update) (h : u.retry < 2 ^ 64) (h' : u'.retry < 2 ^ 64)
+    (e : Json.update d u = Json.update d' u') : d = d' ∧ u = u' :=
+  Json.update_injective d d' u u' h h' e
+
+/-- The stored text never contains a raw control character (it is valid JSON whatever the payload). -/
+theorem stored_strings_have_no_raw_control (s : Str) : ∀ c ∈ Json.escape s, 32 ≤ c.toNat :=
+  Json.escape_no_control s
+
+/-- A whole replay: decoding the values of a history scan yields the stored updates themselves,
+    in order (byte-level `scan` + `decodeAll` = the abstract `negotiate`). -/
+theorem replayed_events_are_the_stored_ones (debug : Bool) (b : BoltStore.Bucket) (db : List (Nat × Update))
+    (req : Str) (toSeq : Nat) (wf : BoltStore.WellFormed debug b db)
+    (hr : ∀ e ∈ db, e.2.retry < 2 ^ 64) (hto : ∀ e ∈ db, e.1 ≤ toSeq) :
+    BoltStore.decodeAll (BoltStore.scan (BoltStore.reqBytes req) toSeq b).2 = some (negotiate db req).2 :=
+  (BoltStore.scan_refines BoltStore.rt_holds debug b db req toSeq wf hr hto).2
+
+/-- The JSON shape modelled is the one in /repo: the exported fields of `Update` (with the embedded
+    `Event` flattened), their Go types, no struct tag, no custom (un)marshaller — regenerated from
+    update.go / event.go on every run — and bolt.go stores `json.Marshal(*update)` and reads it back
+    with `json.Unmarshal`. -/
+theorem repo_json_fields :
+    Facts.updateJSONFields = ["Topics:[]string", "Private:bool", "Debug:bool", "Data:string", "ID:string", "Type:string", "Retry:uint64"]
+    ∧ Facts.updateJSONNames = Json.fieldNames
+    ∧ Facts.boltValueCodec = "encoding/json" := by
+  decide +kernel
+
+/-! non-vacuity: a payload with quotes, a backslash, controls, HTML-sensitive and astral characters -/
+def sampleUpdate : Update :=
+  { id := "i\"d".toList, topics := ["a<b".toList, [Char.ofNat 0, Char.ofNat 0x2028]], priv := true,
+    data := "x\r\n\\u0041\ty😀".toList, type := [], retry := 18446744073709551615 }
+
+example : Json.parseUpdate (Json.update false sampleUpdate) = some (false, sampleUpdate) := by
+  decide +kernel
+
 end Mercure.C12
 
 #print axioms Mercure.C12.parse_encode
 #print axioms Mercure.C12.parse_stream
 #print axioms Mercure.C12.repo_event_format
+#print axioms Mercure.C12.stored_value_roundtrip
+#print axioms Mercure.C12.stored_value_injective
+#print axioms Mercure.C12.stored_strings_have_no_raw_control
+#print axioms Mercure.C12.replayed_events_are_the_stored_ones
+#print axioms Mercure.C12.repo_json_fields
